@@ -23,7 +23,7 @@ one() {
     (cd "$V/seeded/$S" && PYTHONPATH="$W/src" timeout -s KILL 300 /venv/bin/python demo.py >/dev/null 2>&1); dp=$?
     echo "[$S] tests: $t | demo clean=$dc patched=$dp"
     for P in ${PR//,/ }; do
-      out=$(cd "$C" && VERIF_REPO="$W" timeout -s KILL 2400 ./check "$P" --tier quick 2>&1 | grep "VIOLATION property\|^  \|rc=" | grep -v "^  proof\|KNOWN" | tail -4 | cut -c1-260)
+      out=$(cd "$C" && VERIF_REPO="$W" VERIF_BUDGET=2000 timeout -s KILL 2400 ./check "$P" --tier quick 2>&1 | grep "VIOLATION property\|^  \|rc=" | grep -v "^  proof\|KNOWN" | tail -4 | cut -c1-260)
       echo "$out" | sed "s/^/[$S] /"
     done
   fi
